@@ -6028,6 +6028,12 @@ class LazyContainer(dict):
     def __len__(self):
         return len(self._struct.subcons)
 
+    def get(self, key, default=None):
+        try:
+            return self[key]
+        except KeyError:
+            return default
+
     def keys(self):
         return iter(self._struct._subcons)
 
